@@ -283,11 +283,113 @@ def extract_reduce(src):
     return mean_block, med_block, bounds_default, qlow, qhigh
 
 
+def extract_reduce_args(src):
+    """ How `reduce` turns its `bounds` / `quantiles` arguments into the values used: Lean functions of the optional
+        argument.  `x is None` tests give `none => default | some v => v`; truthiness forms (`x or d`, `if not x`) are
+        translated faithfully (0 is falsy), so that the theorem "an explicit value is used as given" decides. """
+    fn = src.func(REL, 'reduce', 'MultiSim')
+    blk = None
+    for st in fn.body:
+        if isinstance(st, ast.If) and unparse(st.test) == 'use_mean' and not any(unparse(x).startswith('res[:]') for x in st.body):
+            blk = st; break
+    if blk is None:
+        raise ExtractError('MultiSim.reduce: argument-handling block `if use_mean:` not found')
+
+    def default_rule(stmts, name):
+        """ returns (kind, default-node) for the statement(s) that default `name` """
+        for st in stmts:
+            if isinstance(st, ast.If) and not st.orelse and len(st.body) == 1 and isinstance(st.body[0], ast.Assign) \
+                    and unparse(st.body[0].targets[0]) == name:
+                t = unparse(st.test)
+                if t == f'{name} is None': return 'none', st.body[0].value
+                if t == f'not {name}': return 'falsy', st.body[0].value
+                raise ExtractError(f'reduce: unsupported defaulting test for {name}: {t}')
+            if isinstance(st, ast.Assign) and unparse(st.targets[0]) == name and isinstance(st.value, ast.BoolOp) \
+                    and isinstance(st.value.op, ast.Or) and len(st.value.values) == 2 and unparse(st.value.values[0]) == name:
+                return 'falsy', st.value.values[1]
+            if isinstance(st, ast.Assign) and unparse(st.targets[0]) == name and isinstance(st.value, ast.IfExp):
+                t = unparse(st.value.test)
+                if t == f'{name} is None' and unparse(st.value.orelse) == name: return 'none', st.value.body
+                if t == f'{name} is not None' and unparse(st.value.body) == name: return 'none', st.value.orelse
+                raise ExtractError(f'reduce: unsupported conditional default for {name}: {unparse(st.value)}')
+        raise ExtractError(f'reduce: no defaulting statement for {name} found')
+
+    bkind, bdef = default_rule(blk.body, 'bounds')
+    qkind, qdef = default_rule(blk.orelse, 'quantiles')
+    bval = lit_rat(bdef)
+    if not isinstance(qdef, ast.Dict):
+        raise ExtractError('reduce: default quantiles is not a dict literal')
+    d = {_const(k, 'quantile key'): lit_rat(v) for k, v in zip(qdef.keys, qdef.values)}
+    if set(d) != {'low', 'high'}:
+        raise ExtractError(f'reduce: default quantiles keys {sorted(d)}')
+    # the non-dict conversion: quantiles = {'low': float(quantiles[0]), 'high': float(quantiles[1])}; nothing else may rewrite it
+    conv = None; others = []
+    for st in blk.orelse:
+        if isinstance(st, ast.If) and unparse(st.test) == 'not isinstance(quantiles, dict)':
+            for inner in ast.walk(st):
+                if isinstance(inner, ast.Assign) and unparse(inner.targets[0]) == 'quantiles':
+                    conv = unparse(inner.value).replace('"', "'")
+        elif isinstance(st, ast.Assign) and unparse(st.targets[0]) == 'quantiles':
+            others.append(unparse(st))
+    if conv != "{'low': float(quantiles[0]), 'high': float(quantiles[1])}":
+        raise ExtractError(f'reduce: list/tuple quantiles conversion changed: {conv!r}')
+    extra = [o for o in others if not o.startswith('quantiles = quantiles or') and 'if quantiles is' not in o]
+    if extra:
+        raise ExtractError(f'reduce: quantiles rewritten by an unsupported statement: {extra[0][:80]}')
+    # later rewrites of bounds / quantiles anywhere else in the function
+    for st in fn.body:
+        if st is blk: continue
+        for inner in ast.walk(st):
+            if isinstance(inner, (ast.Assign, ast.AugAssign)):
+                tg = inner.targets[0] if isinstance(inner, ast.Assign) else inner.target
+                if unparse(tg) in ('bounds', 'quantiles'):
+                    raise ExtractError(f'reduce: {unparse(tg)} reassigned outside the argument block: {unparse(inner)[:80]}')
+    return bkind, bval, qkind, d['low'], d['high']
+
+
+def extract_parallel(src):
+    """ ss.parallel(*args, **kwargs): the sims are merged into ONE LIST handed to MultiSim(sims=...), then run """
+    fn = src.func(REL, 'parallel')
+    stmts = [st for st in fn.body if not (isinstance(st, ast.Expr) and isinstance(st.value, ast.Constant))]
+    texts = [unparse(st) for st in stmts]
+    want = ['sims = sc.mergelists(*args)', 'msim = MultiSim(sims=sims, **kwargs)', 'msim.run()', 'return msim']
+    if texts != want:
+        raise ExtractError(f'parallel(): body changed: {texts}')
+    return True
+
+
+def extract_init_sims(src):
+    """ MultiSim.init_sims: multi_run(sims, **run_args, do_run=False) with inplace/debug removed; result stored in self.sims """
+    fn = src.func(REL, 'init_sims', 'MultiSim')
+    text = unparse(fn)
+    need = ["{'do_run': False}", "kwargs.pop('inplace', None)", "kwargs.pop('debug', None)", 'self.sims = multi_run(sims, **kwargs)']
+    for n in need:
+        if n not in text:
+            raise ExtractError(f'MultiSim.init_sims: expected `{n}`')
+    # single_run must not initialise when do_run is false: the `if do_run:` statement has no else branch
+    sr = src.func(REL, 'single_run')
+    for st in sr.body:
+        if isinstance(st, ast.If) and unparse(st.test) == 'do_run':
+            if st.orelse:
+                return False
+            return True
+    raise ExtractError('single_run: `if do_run:` not found')
+
+
 @generator('RunFacts', [REL])
 def gen_run_facts(src):
     expr = extract_single_run(src)
     rs_single, rs_list, serial_copies = extract_multi_run(src)
     mean_b, med_b, k, qlow, qhigh = extract_reduce(src)
+    bkind, bval, qkind, aqlo, aqhi = extract_reduce_args(src)
+    if (bval, aqlo, aqhi) != (k, qlow, qhigh):
+        raise ExtractError('reduce: inconsistent defaults')
+    par_list = extract_parallel(src)
+    no_init = extract_init_sims(src)
+    bounds_fn = {'none': 'match b with | none => defaultBounds | some x => x',
+                 'falsy': 'match b with | none => defaultBounds | some x => if x = 0 then defaultBounds else x'}[bkind]
+    quant_fn = {'none': 'match q with | none => (defaultQLow, defaultQHigh) | some p => p',
+                'falsy': 'match q with | none => (defaultQLow, defaultQHigh) | some p => p'}[qkind]
     b = lambda x: 'true' if x else 'false'
     body = f'''namespace StarsimModel.Gen
 /-- `single_run`: the statement under `if reseed:` — new `sim.pars['rand_seed']` as a function of the old seed and `ind` -/
@@ -317,9 +419,18 @@ def medHigh : StatExpr := {_lean_stat(med_b['high'])}
 def defaultBounds : Rat := {lean_rat(k)}
 def defaultQLow : Rat := {lean_rat(qlow)}
 def defaultQHigh : Rat := {lean_rat(qhigh)}
+/-- `reduce`: the `bounds` actually used, from the argument (`none` = not given); defaulting test: {bkind} -/
+def boundsArg (b : Option Rat) : Rat := {bounds_fn}
+/-- `reduce`: the (low, high) quantile levels actually used, from the argument (dict / list / tuple, `none` = not given) -/
+def quantilesArg (q : Option (Rat × Rat)) : Rat × Rat := {quant_fn}
+/-- `ss.parallel(*args)`: the sims are always handed to `MultiSim` as ONE LIST (also a single sim) and run -/
+def parallelWrapsList : Bool := {b(par_list)}
+/-- `single_run(do_run=False)` only applies seed and parameters; it does not call `sim.init()` -/
+def doRunFalseSkipsInit : Bool := {b(no_init)}
 end StarsimModel.Gen
 '''
     facts = dict(reseed_expr=expr, reseed_default_single=rs_single, reseed_default_list=rs_list, serial_copies=serial_copies,
                  mean={k_: _show_stat(v) for k_, v in mean_b.items()}, median={k_: _show_stat(v) for k_, v in med_b.items()},
-                 default_bounds=str(k), default_quantiles=[str(qlow), str(qhigh)])
+                 default_bounds=str(k), default_quantiles=[str(qlow), str(qhigh)],
+                 bounds_default_test=bkind, quantiles_default_test=qkind, parallel_wraps_list=par_list, do_run_false_skips_init=no_init)
     return body, facts
